@@ -507,7 +507,9 @@ func freeRunning(r *ev.Run, i int) *p2prig.Scenario {
 	s.CheckpointHeights = []int32{int32(20 + rng.Intn(100))}
 	s.Nodes = []p2prig.NodeSpec{{Kind: "honest", DisconnectAtMsg: 4 + rng.Intn(5)}, {Kind: "laggard", Lag: 1 + rng.Intn(5)}, {Kind: "forker", ForkAt: 150 + rng.Intn(20), ForkLen: 2 + rng.Intn(6)}, {Kind: "laggard", Lag: 2, Inbound: true}}
 	s.WaitReconnect = true
-	s.Announce = []p2prig.AnnounceSpec{{Blocks: 1, Mode: "inv", Nodes: []int{0, 1}}, {Blocks: 2, Mode: "headers"}, {Blocks: 1, Mode: "conformant", Nodes: []int{0, 3}}}
+	s.Announce = []p2prig.AnnounceSpec{{Blocks: 1, Mode: "inv", Nodes: []int{0, 1}}, {Blocks: 2, Mode: "headers"}, {Blocks: 1, Mode: "conformant", Nodes: []int{0, 3}},
+		// the peer on the losing branch announces its own tip: the service fetches that branch (new headers, all stale)
+		{Blocks: 0, Mode: "inv", Nodes: []int{2}}, {Blocks: 1, Mode: "conformant", Nodes: []int{0, 2}}}
 	return s
 }
 
